@@ -457,11 +457,18 @@ func (v *Verifier) retryTimeouts(obs []*Oblig, dir string, all bool) {
 	// nine times the limit, two obligations at a time: the floating-point obligations of the histogram arm need 13-19 s
 	// on an idle machine and ran out of a 30 s limit on a busy one (11.4, false alarm 11)
 	rv.Timeout = v.Timeout * 9
+	par := 2
+	if len(again) > 8 {
+		// many undecided obligations are a changed tree rather than a starved solver:
+		// keep the run short (three times the limit, more at a time)
+		rv.Timeout = v.Timeout * 3
+		par = 4
+	}
 	for _, o := range again {
 		o.FirstTry = o.Output
 		o.Status, o.Output = "", ""
 	}
-	rv.solveAll(again, dir, all, 2)
+	rv.solveAll(again, dir, all, par)
 	for _, o := range again {
 		o.Output = o.Output + " (second attempt with a " + fmt.Sprint(rv.Timeout) + " s limit; first attempt: " + o.FirstTry + ")"
 	}
